@@ -86,7 +86,16 @@ impl StyleSheetOutput {
         }
         self.prev_ser_type = next_ser_type;
         let output_start_pos = self.s.len();
-        write_token_css(&token, &mut self.s);
+        match (&*token, token.raw) {
+            // A number that is not converted is written as it was spelled: printing its single
+            // precision value again changes integers beyond `i32`, decimals with more than six
+            // digits, `0e999` (not a number after the multiplication) and units such as `\65 5`.
+            (
+                Token::Number { .. } | Token::Percentage { .. } | Token::Dimension { .. },
+                Some(raw),
+            ) => self.s.push_str(raw),
+            _ => write_token_css(&token, &mut self.s),
+        }
         let name = src.map(|x| {
             // (written like the output tokens: integers of seven or more digits keep all digits)
             let mut s = String::new();
